@@ -27,13 +27,15 @@ Proof.
     repeat match goal with A : r_wait _ = _ |- _ => rewrite A in *; revert A end; intros;
     repeat match goal with A : r_released _ = _ |- _ => rewrite A in *; revert A end; intros; simpl in *;
     try lia.
-  all: unfold pre_go in *; repeat match goal with A : context[r_apc ?R] |- _ => destruct (r_apc R) eqn:? end; simpl in *; try discriminate.
+  all: try (exfalso; match goal with A : roots _ ?r = Some ?R, B : mons _ ?r = None |- _ => let X := fresh in destruct (i_rootmon _ I r R A) as (? & X & _); rewrite B in X; discriminate X end).
+  all: clear IH IG; unfold pre_go in *.
+  all: try match goal with A : context[r_apc ?R] |- _ => destruct (r_apc R) eqn:? end; simpl in *; try discriminate.
   all: repeat match goal with
-              | A : context[r_released ?R] |- _ => destruct (r_released R) eqn:?
-              | A : context[r_wait ?R] |- _ => destruct (r_wait R) eqn:?
-              | |- context[r_wait ?R] => destruct (r_wait R) eqn:?
+              | A : context[if r_released ?R then _ else _] |- _ => destruct (r_released R) eqn:?
+              | |- context[if r_released ?R then _ else _] => destruct (r_released R) eqn:?
+              | A : context[if r_wait ?R then _ else _] |- _ => destruct (r_wait R) eqn:?
+              | |- context[if r_wait ?R then _ else _] => destruct (r_wait R) eqn:?
+              | A : context[negb (r_wait ?R)] |- _ => destruct (r_wait R) eqn:?
               end; simpl in *; try discriminate; try lia.
-  all: match goal with |- ?G => idtac "GOAL" end.
-  all: idtac "LEFT-waiter". Show 1. Show 2. Show 3.
-Abort.
+Qed.
 
